@@ -41,6 +41,13 @@ func indentAndWrite(buf *bytes.Buffer, dst []byte, src []byte, prefix, indentStr
 	if err != nil {
 		return nil, err
 	}
+	// like encoding/json, keep the white space that follows the value (src ends with the terminator)
+	end := len(src) - 1
+	start := end
+	for start > 0 && isWhiteSpace[src[start-1]] {
+		start--
+	}
+	dst = append(dst, src[start:end]...)
 	if _, err := buf.Write(dst); err != nil {
 		return nil, err
 	}
